@@ -2,7 +2,7 @@ import JSight.Model.Build
 import JSight.Proofs.BuildPermInters2
 /-!
 Helpers of `Props/C10_Inters.lean`, third part: interaction blocks of any of the shapes `Gen.childAllowed` allows
-for HTTP (a method with its Tags; a URL with Tags, Path and methods) commute.
+(a method with its Tags; a URL with Tags, Path, Paste and HTTP methods, or with Protocol and JSON-RPC Methods) commute.
 
 * part J: `Sim` is an equivalence on catalogs with unique keys; commutation up to `Sim` (`Comm`) of sequences;
 * part K: creators (`Cr`) and blocks (`IsBlk`): a block is a creator followed by operations on the interactions
@@ -395,9 +395,44 @@ theorem tagStage_eq_S (d : BDir) (kids : List BDir) (anc : List Up) (i : IId) (c
   unfold tagStage tagStageS
   cases tagsSource kids anc <;> rfl
 
+/-- the id is taken: it is there, or (a JSON-RPC id, `addJsonRpcMethod`) an interaction with the same text is -/
+def taken (c : Cat) (i : IId) : Bool :=
+  c.hasInter i || (i.proto == .rpc && c.inters.any (fun x => x.iid.text == i.text))
+
+theorem taken_false {c : Cat} {i : IId} (h : taken c i = false) : c.hasInter i = false := by
+  unfold taken at h
+  cases hh : c.hasInter i with
+  | false => rfl
+  | true => rw [hh] at h; cases h
+
+theorem taken_http {c : Cat} {i : IId} (hp : i.proto = .http) : taken c i = c.hasInter i := by
+  unfold taken; rw [hp]; simp
+
+theorem taken_rpc {c : Cat} {i : IId} (hp : i.proto = .rpc) :
+    taken c i = (c.hasInter i || c.inters.any (fun x => x.iid.text == i.text)) := by
+  unfold taken; rw [hp]; simp
+
+theorem taken_updInter (c : Cat) (i j : IId) {f : InterM → InterM} (hf : Keeps f) :
+    taken (c.updInter j f) i = taken c i := by
+  unfold taken
+  rw [hasInter_updInter c i j hf]
+  congr 2
+  unfold Cat.updInter
+  simp only [List.any_map]
+  congr 1
+  funext x
+  simp only [Function.comp]
+  split
+  · rw [hf]
+  · rfl
+
+theorem Sim.taken {c c' : Cat} (h : Sim c c') (i : IId) : taken c' i = taken c i := by
+  unfold JSight.BuildPermI.taken
+  rw [h.hasInter i, h.inters.any_eq]
+
 /-- a new interaction: refused when the id is taken or a named tag is not declared -/
 def interS (e : BErr) (d : BDir) (i : IId) (src : Option BDir) (c : Cat) : R Cat :=
-  if c.hasInter i then .error e else tagStageS d i src c
+  if taken c i then .error e else tagStageS d i src c
 
 theorem cr_err (e : BErr) : Cr (errS e) where
   upd _ _ _ _ _ := rfl
@@ -543,14 +578,14 @@ theorem tagStageS_of {d : BDir} {i : IId} {src : Option BDir} {c : Cat} (h : src
     rw [attachAll_eq]
 
 theorem interS_ok {e : BErr} {d : BDir} {i : IId} {src : Option BDir} {c c2 : Cat} (h : interS e d i src c = .ok c2) :
-    c.hasInter i = false ∧ srcOK c src ∧ c2 = effG d i src c := by
+    taken c i = false ∧ srcOK c src ∧ c2 = effG d i src c := by
   unfold interS at h
   split at h
   · cases h
   · rename_i hn
     exact ⟨by simpa using hn, tagStageS_ok h⟩
 
-theorem interS_of {e : BErr} {d : BDir} {i : IId} {src : Option BDir} {c : Cat} (hn : c.hasInter i = false)
+theorem interS_of {e : BErr} {d : BDir} {i : IId} {src : Option BDir} {c : Cat} (hn : taken c i = false)
     (hs : srcOK c src) : interS e d i src c = .ok (effG d i src c) := by
   unfold interS
   simp only [hn, Bool.false_eq_true, if_false]
@@ -560,6 +595,15 @@ theorem effG_hasInter (d : BDir) (i : IId) (src : Option BDir) (c : Cat) (j : II
     (effG d i src c).hasInter j = (c.hasInter j || i == j) := by
   unfold effG Cat.hasInter
   simp [List.any_append]
+
+theorem effG_taken (d : BDir) (i : IId) (src : Option BDir) (c : Cat) (j : IId) :
+    taken (effG d i src c) j = (taken c j || i == j || (j.proto == .rpc && i.text == j.text)) := by
+  unfold taken
+  rw [effG_hasInter]
+  unfold effG Cat.hasInter
+  simp only [List.any_append, List.any_cons, List.any_nil, Bool.or_false]
+  cases (c.inters.any fun x => x.iid == j) <;> cases (i == j) <;> cases (j.proto == Proto.rpc) <;>
+    cases (c.inters.any fun x => x.iid.text == j.text) <;> cases (i.text == j.text) <;> rfl
 
 theorem effG_getInter (d : BDir) (i : IId) (src : Option BDir) (c : Cat) (j : IId) (hj : c.hasInter j = true) :
     (effG d i src c).getInter j = c.getInter j := by
@@ -645,8 +689,8 @@ theorem cr_inter (e : BErr) (d : BDir) (i : IId) (src : Option BDir) : Cr (inter
     | ok c2 =>
       obtain ⟨hn, hs, rfl⟩ := interS_ok hm
       have hij : i ≠ j := by
-        intro e'; subst e'; rw [hn] at hj; cases hj
-      have hn' : (c.updInter j f).hasInter i = false := by rw [hasInter_updInter c i j hf]; exact hn
+        intro e'; subst e'; rw [taken_false hn] at hj; cases hj
+      have hn' : taken (c.updInter j f) i = false := by rw [taken_updInter c i j hf]; exact hn
       have hs' : srcOK (c.updInter j f) src := (srcOK_decl (DeclEq.of_tags rfl) src).2 hs
       rw [interS_of hn' hs']
       simp only [rmap_ok]
@@ -660,7 +704,7 @@ theorem cr_inter (e : BErr) (d : BDir) (i : IId) (src : Option BDir) : Cr (inter
       | error e2 =>
         show Except.error e2 = Except.error e1
         unfold interS at hm hm'
-        rw [hasInter_updInter c i j hf] at hm'
+        rw [taken_updInter c i j hf] at hm'
         split at hm
         · rename_i hh; rw [if_pos hh] at hm'; rw [← hm, ← hm']
         · rename_i hh
@@ -678,7 +722,7 @@ theorem cr_inter (e : BErr) (d : BDir) (i : IId) (src : Option BDir) : Cr (inter
             | error e3 => rw [ht] at hm hm'; cases hm; cases hm'; rfl
       | ok c2 =>
         obtain ⟨hn, hs, _⟩ := interS_ok hm'
-        rw [hasInter_updInter c i j hf] at hn
+        rw [taken_updInter c i j hf] at hn
         have hs' : srcOK c src := (srcOK_decl (DeclEq.of_tags rfl) src).1 hs
         rw [interS_of hn hs'] at hm; cases hm
   get j c c2 h hj := by
@@ -690,11 +734,11 @@ theorem cr_inter (e : BErr) (d : BDir) (i : IId) (src : Option BDir) : Cr (inter
   lifts := by
     intro c c' h
     unfold interS
-    rw [h.hasInter i]
+    rw [h.taken i]
     split
     · trivial
     · rename_i hn
-      exact tagStageS_sim d i src h (by simpa using hn)
+      exact tagStageS_sim d i src h (taken_false (by simpa using hn))
 
 /-! #### pairs of atoms -/
 
@@ -791,7 +835,7 @@ theorem comm_sim_uniq (e : BErr) (pp : List (Bytes × Bytes)) (e' : BErr) (path 
         · cases h; rfl))
 
 theorem interS_set (e : BErr) (d : BDir) (i : IId) (src : Option BDir) (set : Cat → Cat)
-    (h1 : ∀ c, (set c).hasInter i = c.hasInter i)
+    (h1 : ∀ c, taken (set c) i = taken c i)
     (h2 : ∀ c td, tagsFromDirective (set c) td = tagsFromDirective c td)
     (h3 : ∀ c, effG d i src (set c) = set (effG d i src c)) (c : Cat) :
     interS e d i src (set c) = rmap set (interS e d i src c) := by
@@ -1021,18 +1065,33 @@ theorem interS_comm_ok (eA : BErr) (dA : BDir) (iA : IId) (srcA : Option BDir) (
   obtain ⟨x1, h1, h2⟩ := bind_ok h
   obtain ⟨hnA, hsA, rfl⟩ := interS_ok h1
   obtain ⟨hnB, hsB, rfl⟩ := interS_ok h2
-  rw [effG_hasInter] at hnB
-  have hnB' : x.hasInter iB = false := by
-    cases hh : x.hasInter iB with
-    | false => rfl
-    | true => rw [hh] at hnB; cases hnB
+  rw [effG_taken] at hnB
+  simp only [Bool.or_eq_false_iff] at hnB
+  obtain ⟨⟨hnB', hne⟩, htxt⟩ := hnB
   have hAB : iA ≠ iB := by
-    intro e; subst e; simp at hnB
+    intro e; subst e; simp at hne
   have hsB' : srcOK x srcB := (srcOK_decl (effG_decl dA iA srcA x) srcB).1 hsB
   have hB1 : interS eB dB iB srcB x = .ok (effG dB iB srcB x) := interS_of hnB' hsB'
   have hA2 : interS eA dA iA srcA (effG dB iB srcB x) = .ok (effG dA iA srcA (effG dB iB srcB x)) := by
     apply interS_of
-    · rw [effG_hasInter, hnA]; simpa using (Ne.symm hAB)
+    · rw [effG_taken, hnA]
+      have h1 : (iB == iA) = false := by simpa using (Ne.symm hAB)
+      have h2 : (iA.proto == Proto.rpc && iB.text == iA.text) = false := by
+        cases hpA : iA.proto with
+        | http => rfl
+        | rpc =>
+          cases hpB : iB.proto with
+          | rpc =>
+            rw [hpB] at htxt
+            have : (iA.text == iB.text) = false := by simpa using htxt
+            have hne' : iA.text ≠ iB.text := by simpa using this
+            have : (iB.text == iA.text) = false := by simpa using (Ne.symm hne')
+            simp [this]
+          | http =>
+            have : iB.text ≠ iA.text := by
+              unfold IId.text; rw [hpA, hpB]; exact http_ne_rpc _ _ _ _
+            simp [this]
+      rw [h1, h2]; rfl
     · exact (srcOK_decl (effG_decl dB iB srcB x) srcA).2 hsA
   refine ⟨_, by rw [hB1, ok_bind, hA2], ?_⟩
   refine ⟨rfl, rfl, rfl, rfl, ?_, ?_, ?_, fun _ => rfl, MapEq.refl _, fun _ => rfl⟩
@@ -1047,8 +1106,8 @@ theorem interS_comm_ok (eA : BErr) (dA : BDir) (iA : IId) (srcA : Option BDir) (
       simp only [List.mem_cons, List.not_mem_nil, or_false] at hb
       intro e; subst e
       rcases hb with rfl | rfl
-      · exact hasInter_false hnA ha
-      · exact hasInter_false hnB' ha
+      · exact hasInter_false (taken_false hnA) ha
+      · exact hasInter_false (taken_false hnB') ha
   · show TagsRel (tagsEff iB srcB (tagsEff iA srcA x.tags)) (tagsEff iA srcA (tagsEff iB srcB x.tags))
     refine ⟨tagsEff_nodup iB srcB (tagsEff_nodup iA srcA hx.tags), tagsEff_nodup iA srcA (tagsEff_nodup iB srcB hx.tags),
       fun n => ?_⟩
@@ -1069,6 +1128,113 @@ theorem comm_inter_inter (eA : BErr) (dA : BDir) (iA : IId) (srcA : Option BDir)
       obtain ⟨r, h3, _⟩ := interS_comm_ok eB dB iB srcB eA dA iA srcA x hx h2
       rw [h1] at h3; cases h3
 
+/-! #### the Protocol directive of a URL -/
+
+def protoS (e : BErr) (n : Nat) (c : Cat) : R Cat :=
+  if c.protoURLs.contains n then .error e else .ok { c with protoURLs := n :: c.protoURLs }
+
+def setProto (u : List Nat) (c : Cat) : Cat := { c with protoURLs := u }
+def gProto (n : Nat) (c : Cat) : Option (List Nat) :=
+  if c.protoURLs.contains n then none else some (n :: c.protoURLs)
+
+theorem protoS_eq (e : BErr) (n : Nat) (c : Cat) : protoS e n c = guardOp (gProto n) setProto e c := by
+  unfold protoS guardOp gProto setProto; split <;> rfl
+
+theorem protoS_mem {e : BErr} {n : Nat} {c : Cat} (h : c.protoURLs.contains n = true) : protoS e n c = .error e := by
+  unfold protoS; rw [if_pos h]
+
+theorem protoS_not {e : BErr} {n : Nat} {c : Cat} (h : c.protoURLs.contains n = false) :
+    protoS e n c = .ok { c with protoURLs := n :: c.protoURLs } := by
+  unfold protoS; rw [h]; rfl
+
+theorem cr_proto (e : BErr) (n : Nat) : Cr (protoS e n) where
+  upd i c f hf hi := by
+    unfold protoS
+    have e0 : (c.updInter i f).protoURLs = c.protoURLs := rfl
+    rw [e0]
+    split <;> rfl
+  get i c c2 h hi := by
+    unfold protoS at h
+    split at h
+    · cases h
+    · cases h; rfl
+  decl c c2 h := by
+    unfold protoS at h
+    split at h
+    · cases h
+    · cases h; exact DeclEq.of_tags rfl
+  lifts := by
+    intro c c' h
+    unfold protoS
+    rw [h.proto n]
+    split
+    · trivial
+    · refine ⟨h.jsight, h.info, h.servers, h.types, h.inters, h.keys, h.tags, h.uniq, h.similar, ?_⟩
+      intro m
+      show (n :: c'.protoURLs).contains m = (n :: c.protoURLs).contains m
+      rw [List.contains_cons, List.contains_cons, h.proto m]
+
+theorem comm_sim_proto (e : BErr) (pp : List (Bytes × Bytes)) (e' : BErr) (n : Nat) :
+    Comm (simS e pp) (protoS e' n) :=
+  comm_exact (cr_sim e pp) (cr_proto e' n) (comm_field (gSim pp) setSim e (simS_eq e pp)
+    (by intro v c; unfold protoS setSim; simp only []; split <;> rfl)
+    (by intro c c2 h; unfold protoS at h; split at h
+        · cases h
+        · cases h; rfl))
+
+theorem comm_uniq_proto (e : BErr) (path : Bytes) (e' : BErr) (n : Nat) :
+    Comm (uniqS e path) (protoS e' n) :=
+  comm_exact (cr_uniq e path) (cr_proto e' n) (comm_field (gUniq path) setUniq e (uniqS_eq e path)
+    (by intro v c; unfold protoS setUniq; simp only []; split <;> rfl)
+    (by intro c c2 h; unfold protoS at h; split at h
+        · cases h
+        · cases h; rfl))
+
+theorem interS_setProto (e : BErr) (d : BDir) (i : IId) (src : Option BDir) (u : List Nat) (c : Cat) :
+    interS e d i src (setProto u c) = rmap (setProto u) (interS e d i src c) :=
+  interS_set e d i src (setProto u) (fun _ => rfl) (fun _ _ => rfl) (fun _ => rfl) c
+
+theorem comm_proto_inter (e : BErr) (n : Nat) (e' : BErr) (d : BDir) (i : IId) (src : Option BDir) :
+    Comm (protoS e n) (interS e' d i src) :=
+  comm_exact (cr_proto e n) (cr_inter e' d i src) (comm_field (gProto n) setProto e (protoS_eq e n)
+    (fun v c => interS_setProto e' d i src v c)
+    (by intro c c2 h; obtain ⟨_, _, rfl⟩ := interS_ok h; rfl))
+
+theorem comm_proto_proto (e : BErr) (p : Nat) (e' : BErr) (q : Nat) : Comm (protoS e p) (protoS e' q) := by
+  intro x hx
+  cases h1 : x.protoURLs.contains p <;> cases h2 : x.protoURLs.contains q
+  · rw [protoS_not h1, protoS_not h2, ok_bind, ok_bind]
+    by_cases h3 : p = q
+    · subst h3
+      have : ({ x with protoURLs := p :: x.protoURLs } : Cat).protoURLs.contains p = true := by
+        show (p :: x.protoURLs).contains p = true
+        simp [List.contains_cons]
+      rw [protoS_mem this, protoS_mem this]; trivial
+    · have a1 : ({ x with protoURLs := p :: x.protoURLs } : Cat).protoURLs.contains q = false := by
+        show (p :: x.protoURLs).contains q = false
+        rw [List.contains_cons, h2]; simpa using (Ne.symm h3)
+      have a2 : ({ x with protoURLs := q :: x.protoURLs } : Cat).protoURLs.contains p = false := by
+        show (q :: x.protoURLs).contains p = false
+        rw [List.contains_cons, h1]; simpa using h3
+      rw [protoS_not a1, protoS_not a2]
+      have hs := Sim.rfl' hx
+      refine ⟨rfl, rfl, rfl, rfl, hs.inters, hs.keys, hs.tags, hs.uniq, hs.similar, ?_⟩
+      intro r
+      show (p :: q :: x.protoURLs).contains r = (q :: p :: x.protoURLs).contains r
+      simp only [List.contains_cons]
+      cases (r == p) <;> cases (r == q) <;> rfl
+  · rw [protoS_not h1, protoS_mem h2, ok_bind, error_bind]
+    have : ({ x with protoURLs := p :: x.protoURLs } : Cat).protoURLs.contains q = true := by
+      show (p :: x.protoURLs).contains q = true
+      rw [List.contains_cons, h2]; simp
+    rw [protoS_mem this]; trivial
+  · rw [protoS_mem h1, protoS_not h2, ok_bind, error_bind]
+    have : ({ x with protoURLs := q :: x.protoURLs } : Cat).protoURLs.contains p = true := by
+      show (q :: x.protoURLs).contains p = true
+      rw [List.contains_cons, h1]; simp
+    rw [protoS_mem this]; trivial
+  · rw [protoS_mem h1, protoS_mem h2]; trivial
+
 /-- the operations the creators are made of -/
 inductive Atom : (Cat → R Cat) → Prop
   | err (e : BErr) : Atom (errS e)
@@ -1076,6 +1242,7 @@ inductive Atom : (Cat → R Cat) → Prop
   | uniq (e : BErr) (path : Bytes) : Atom (uniqS e path)
   | chk (td : BDir) : Atom (tagChk td)
   | inter (e : BErr) (d : BDir) (i : IId) (src : Option BDir) : Atom (interS e d i src)
+  | proto (e : BErr) (n : Nat) : Atom (protoS e n)
 
 theorem Atom.cr {a : Cat → R Cat} (h : Atom a) : Cr a := by
   cases h with
@@ -1084,6 +1251,7 @@ theorem Atom.cr {a : Cat → R Cat} (h : Atom a) : Cr a := by
   | uniq e p => exact cr_uniq e p
   | chk td => exact cr_tagChk td
   | inter e d i src => exact cr_inter e d i src
+  | proto e n => exact cr_proto e n
 
 theorem atom_comm {a b : Cat → R Cat} (ha : Atom a) (hb : Atom b) : Comm a b := by
   cases ha with
@@ -1096,6 +1264,7 @@ theorem atom_comm {a b : Cat → R Cat} (ha : Atom a) (hb : Atom b) : Comm a b :
     | sim e' qq => exact comm_sim_sim e pp e' qq
     | uniq e' p => exact comm_sim_uniq e pp e' p
     | inter e' d i src => exact comm_sim_inter e pp e' d i src
+    | proto e' n => exact comm_sim_proto e pp e' n
   | uniq e p =>
     cases hb with
     | err e' => exact (comm_err e' _).symm
@@ -1103,6 +1272,7 @@ theorem atom_comm {a b : Cat → R Cat} (ha : Atom a) (hb : Atom b) : Comm a b :
     | sim e' qq => exact (comm_sim_uniq e' qq e p).symm
     | uniq e' q => exact comm_uniq_uniq e p e' q
     | inter e' d i src => exact comm_uniq_inter e p e' d i src
+    | proto e' n => exact comm_uniq_proto e p e' n
   | inter e d i src =>
     cases hb with
     | err e' => exact (comm_err e' _).symm
@@ -1110,6 +1280,15 @@ theorem atom_comm {a b : Cat → R Cat} (ha : Atom a) (hb : Atom b) : Comm a b :
     | sim e' qq => exact (comm_sim_inter e' qq e d i src).symm
     | uniq e' q => exact (comm_uniq_inter e' q e d i src).symm
     | inter e' d' i' src' => exact comm_inter_inter e d i src e' d' i' src'
+    | proto e' n => exact (comm_proto_inter e' n e d i src).symm
+  | proto e n =>
+    cases hb with
+    | err e' => exact (comm_err e' _).symm
+    | chk td => exact (comm_tagChk td (cr_proto e n)).symm
+    | sim e' qq => exact (comm_sim_proto e' qq e n).symm
+    | uniq e' q => exact (comm_uniq_proto e' q e n).symm
+    | inter e' d i src => exact comm_proto_inter e n e' d i src
+    | proto e' m => exact comm_proto_proto e n e' m
 
 theorem comm_atoms {LA LB : List (Cat → R Cat)} (hA : ∀ a ∈ LA, Atom a) (hB : ∀ b ∈ LB, Atom b) :
     Comm (runL LA) (runL LB) :=
@@ -1145,6 +1324,175 @@ theorem runL_two (a b : Cat → R Cat) (c : Cat) : runL [a, b] c = a c >>= b := 
   congr 1; funext x; exact bind_ok_right _
 
 theorem runL_one (a : Cat → R Cat) (c : Cat) : runL [a] c = a c := bind_ok_right _
+
+/-! #### below a JSON-RPC Method directive -/
+
+/-- the directives allowed below a Method directive (`Gen.childAllowed`) -/
+def rpcKind (d : BDir) : Bool :=
+  d.kind == .Description || d.kind == .Params || d.kind == .Result || d.kind == .Tags
+
+theorem rpcKind_cases {d : BDir} (h : rpcKind d = true) :
+    d.kind = .Description ∨ d.kind = .Params ∨ d.kind = .Result ∨ d.kind = .Tags := by
+  simp only [rpcKind, Bool.or_eq_true, beq_iff_eq] at h
+  rcases h with ((h | h) | h) | h
+  all_goals simp [h]
+
+theorem rpcKind_skip {d : BDir} (h : rpcKind d = true) :
+    d.kind ≠ .URL ∧ isHTTP d.kind = false ∧ d.kind ≠ .Method ∧ d.kind ≠ .Info ∧ d.kind ≠ .TAG := by
+  rcases rpcKind_cases h with h | h | h | h <;> rw [h] <;> exact ⟨by decide, by decide, by decide, by decide, by decide⟩
+
+theorem rpcIdOf_skip (d : BDir) (rest : List BDir) (h1 : d.kind ≠ .URL) (h2 : isHTTP d.kind = false)
+    (h3 : d.kind ≠ .Method) : rpcIdOf (d :: rest) = rpcIdOf rest := by
+  have e1 : pathChain (d :: rest) = pathChain rest := by
+    rw [pathChain]; simp [h1, h2]
+  have e2 : rpcNameChain (d :: rest) = rpcNameChain rest := by
+    rw [rpcNameChain]; simp [h3]
+  unfold rpcIdOf
+  rw [e1, e2]
+
+theorem addDescription_local_rpc (d : BDir) (anc : List Up) (i : IId)
+    (hi : ∀ j, rpcIdOf (d :: anc.map (·.d)) = .ok j → j = i)
+    (hp : ∀ p r, anc = p :: r → p.d.kind ≠ .Info ∧ isHTTP p.d.kind = false ∧ p.d.kind ≠ .TAG) :
+    LocalAt i (addDescription d anc) := by
+  intro c c' hg _
+  unfold addDescription
+  cases anc with
+  | nil =>
+    simp only [fail]
+    repeat' split
+    all_goals exact Or.inl ⟨_, _, rfl, rfl⟩
+  | cons p r =>
+    obtain ⟨h1, h2, h3⟩ := hp p r rfl
+    have e1 : (p.d.kind == Kind.Info) = false := by simpa using h1
+    have e3 : (p.d.kind == Kind.TAG) = false := by simpa using h3
+    simp only [e1, h2, e3, Bool.false_eq_true, if_false]
+    cases hh : rpcIdOf (d :: (p :: r).map (·.d)) with
+    | error m => local_tac hh hg
+    | ok j => cases hi j hh; local_tac hh hg
+
+theorem addDirective_local_rpc (banned : List Kind) (d : BDir) (kids : List BDir) (anc : List Up) (i : IId)
+    (hl : rpcKind d = true) (hi : rpcIdOf (anc.map (·.d)) = .ok i)
+    (hp : ∀ p r, anc = p :: r → rpcKind p.d = true ∨ p.d.kind = .Method) :
+    LocalAt i (addDirective banned d kids anc) := by
+  obtain ⟨s1, s2, s3, _, _⟩ := rpcKind_skip hl
+  have hi' : ∀ j, rpcIdOf (d :: anc.map (·.d)) = .ok j → j = i := by
+    intro j hj
+    rw [rpcIdOf_skip d _ s1 s2 s3, hi] at hj
+    cases hj; rfl
+  by_cases hb : banned.contains d.kind = true
+  · exact LocalAt.congr (LocalAt.err ⟨d.id, .notAllowed⟩) (fun c => by unfold addDirective; rw [if_pos hb]; rfl)
+  · have hpar : ∀ p r, anc = p :: r → p.d.kind ≠ .Info ∧ isHTTP p.d.kind = false ∧ p.d.kind ≠ .TAG := by
+      intro p r e
+      rcases hp p r e with h | h
+      · obtain ⟨_, a, _, b, c⟩ := rpcKind_skip h; exact ⟨b, a, c⟩
+      · rw [h]; exact ⟨by decide, by decide, by decide⟩
+    rcases rpcKind_cases hl with h | h | h | h
+    · exact LocalAt.congr (addDescription_local_rpc d anc i hi' hpar) (fun c => by unfold addDirective; rw [if_neg hb, h])
+    · exact LocalAt.congr (addRpcSchema_local true d anc i hi') (fun c => by unfold addDirective; rw [if_neg hb, h])
+    · exact LocalAt.congr (addRpcSchema_local false d anc i hi') (fun c => by unfold addDirective; rw [if_neg hb, h])
+    · exact LocalAt.congr (addTags_local d i) (fun c => by unfold addDirective; rw [if_neg hb, h])
+
+mutual
+  theorem branch_local_rpc (banned : List Kind) (i : IId) : ∀ (t : BTree) (anc : List Up), allT rpcKind t = true →
+      rpcIdOf (anc.map (·.d)) = .ok i → (∀ p r, anc = p :: r → rpcKind p.d = true ∨ p.d.kind = .Method) →
+      LocalAt i (addBranch banned anc t)
+    | .node d kids, anc, ht, hi, hp => by
+      rw [allT, Bool.and_eq_true] at ht
+      obtain ⟨s1, s2, s3, _, _⟩ := rpcKind_skip ht.1
+      refine LocalAt.congr (LocalAt.bind (addDirective_local_rpc banned d (kids.map BTree.dir) anc i ht.1 hi hp)
+        (forest_local_rpc banned i kids (⟨d, kids.map BTree.dir⟩ :: anc) ht.2 ?_ ?_)) (fun c => addBranch_eq banned anc d kids c)
+      · show rpcIdOf (d :: anc.map (·.d)) = .ok i
+        rw [rpcIdOf_skip d _ s1 s2 s3]; exact hi
+      · intro p r e; cases e; exact Or.inl ht.1
+  theorem forest_local_rpc (banned : List Kind) (i : IId) : ∀ (ts : List BTree) (anc : List Up), allF rpcKind ts = true →
+      rpcIdOf (anc.map (·.d)) = .ok i → (∀ p r, anc = p :: r → rpcKind p.d = true ∨ p.d.kind = .Method) →
+      LocalAt i (addForest banned anc ts)
+    | [], anc, _, _, _ => LocalAt.congr LocalAt.ok (fun c => addForest_nil banned anc c)
+    | t :: r, anc, ht, hi, hp => by
+      rw [allF, Bool.and_eq_true] at ht
+      exact LocalAt.congr (LocalAt.bind (branch_local_rpc banned i t anc ht.1 hi hp) (forest_local_rpc banned i r anc ht.2 hi hp))
+        (fun c => addForest_cons banned anc t r c)
+end
+
+/-- a JSON-RPC Method directive with everything below it -/
+theorem rpc_method_blk (banned : List Kind) (d : BDir) (kids : List BTree) (anc : List Up) (hk : d.kind = .Method)
+    (hkids : allF rpcKind kids = true) :
+    ∃ As L I, (∀ a ∈ As, Atom a) ∧ IsBlk (addBranch banned anc (.node d kids)) (runL As) L I := by
+  have eF : addBranch banned anc (.node d kids) = seq (addDirective banned d (kids.map BTree.dir) anc)
+      (addForest banned (⟨d, kids.map BTree.dir⟩ :: anc) kids) := funext (addBranch_eq banned anc d kids)
+  have e : ∀ c, addDirective banned d (kids.map BTree.dir) anc c =
+      if banned.contains d.kind then fail d .notAllowed else addJsonRpcMethod d (kids.map BTree.dir) anc c := by
+    intro c; unfold addDirective; rw [hk]
+  have failD : (∀ c, ∃ e', addDirective banned d (kids.map BTree.dir) anc c = .error e') →
+      ∃ As L I, (∀ a ∈ As, Atom a) ∧ IsBlk (addBranch banned anc (.node d kids)) (runL As) L I := by
+    intro h
+    apply blk_fail ⟨d.id, .internal⟩
+    intro c; rw [eF]; obtain ⟨e', he⟩ := h c; exact ⟨e', by unfold seq; rw [he]; rfl⟩
+  by_cases hb : banned.contains d.kind = true
+  · apply failD; intro c; rw [e, if_pos hb]; exact ⟨_, rfl⟩
+  by_cases hn : (d.param "MethodName").isEmpty = true
+  · apply failD; intro c; rw [e, if_neg hb, addJsonRpcMethod_eq, if_pos hn]; exact ⟨_, rfl⟩
+  cases anc with
+  | nil => apply failD; intro c; rw [e, if_neg hb, addJsonRpcMethod_eq, if_neg hn]; exact ⟨_, rfl⟩
+  | cons p r =>
+    by_cases hpm : (!p.kids.any (·.kind == .Protocol)) = true
+    · apply failD; intro c; rw [e, if_neg hb, addJsonRpcMethod_eq, if_neg hn]
+      simp only [hpm, if_true]; exact ⟨_, rfl⟩
+    cases hid : rpcIdOf (d :: (p :: r).map (·.d)) with
+    | error m =>
+      apply failD; intro c; rw [e, if_neg hb, addJsonRpcMethod_eq, if_neg hn]
+      simp only [hpm, if_false, hid, liftAt]; exact ⟨_, rfl⟩
+    | ok i =>
+      have eD : ∀ c, addDirective banned d (kids.map BTree.dir) (p :: r) c =
+          runL [interS ⟨d.id, .methodDefined⟩ d i (tagsSource (kids.map BTree.dir) (p :: r))] c := by
+        intro c
+        rw [runL_one, e, if_neg hb, addJsonRpcMethod_eq, if_neg hn]
+        simp only [hpm, if_false, hid, liftAt, ok_bind]
+        unfold interS
+        rw [taken_rpc (rpcIdOf_spec hid)]
+        by_cases hh : (c.hasInter i || c.inters.any (fun x => x.iid.text == i.text)) = true
+        · rw [if_pos hh, if_pos hh]; rfl
+        · rw [if_neg hh, if_neg hh]; exact tagStage_eq_S d _ _ i _
+      have hA : ∀ a ∈ [interS ⟨d.id, .methodDefined⟩ d i (tagsSource (kids.map BTree.dir) (p :: r))], Atom a := by
+        intro a ha
+        simp only [List.mem_singleton] at ha
+        subst ha
+        exact Atom.inter _ _ _ _
+      refine ⟨_, [addForest banned (⟨d, kids.map BTree.dir⟩ :: p :: r) kids], [i], hA, ?_⟩
+      refine ⟨cr_runL (fun a ha => (hA a ha).cr), ?_, ?_, ?_⟩
+      · intro K hK
+        simp only [List.mem_singleton] at hK
+        subst hK
+        exact ⟨i, List.mem_singleton.2 rfl, forest_local_rpc banned i kids _ hkids hid
+          (by intro p' r' e'; cases e'; exact Or.inr hk)⟩
+      · intro c c2 h j hj
+        simp only [List.mem_singleton] at hj
+        subst hj
+        rw [runL_one] at h
+        obtain ⟨hn', _, rfl⟩ := interS_ok h
+        exact ⟨by rw [effG_hasInter]; simp, taken_false hn'⟩
+      · intro c
+        rw [eF]
+        unfold seq
+        have e1 : runL [addForest banned (⟨d, kids.map BTree.dir⟩ :: p :: r) kids] =
+            addForest banned (⟨d, kids.map BTree.dir⟩ :: p :: r) kids := funext (runL_one _)
+        rw [eD c, e1]
+        exact REq.refl _
+
+/-- the Protocol directive -/
+theorem proto_atom (d : BDir) (anc : List Up) : ∃ a, Atom a ∧ ∀ c, addProtocol d anc c = a c := by
+  by_cases h1 : (!d.annot.isEmpty) = true
+  · exact ⟨_, Atom.err ⟨d.id, .annotationForbidden⟩, fun c => by unfold addProtocol; rw [if_pos h1]; rfl⟩
+  by_cases h2 : (d.param "ProtocolName").isEmpty = true
+  · exact ⟨_, Atom.err ⟨d.id, .required "ProtocolName"⟩, fun c => by unfold addProtocol; rw [if_neg h1, if_pos h2]; rfl⟩
+  by_cases h3 : (d.param "ProtocolName" != jsonRpc20) = true
+  · exact ⟨_, Atom.err ⟨d.id, .protocolValue⟩, fun c => by
+      unfold addProtocol; rw [if_neg h1, if_neg h2, if_pos h3]; rfl⟩
+  cases anc with
+  | nil => exact ⟨_, Atom.err ⟨d.id, .internal⟩, fun c => by
+      unfold addProtocol; rw [if_neg h1, if_neg h2, if_neg h3]; rfl⟩
+  | cons p r => exact ⟨_, Atom.proto ⟨d.id, .protocolNotUnique⟩ p.d.id, fun c => by
+      unfold addProtocol protoS; rw [if_neg h1, if_neg h2, if_neg h3]; rfl⟩
 
 /-- a method directive with everything below it -/
 theorem method_blk (banned : List Kind) (d : BDir) (kids : List BTree) (anc : List Up) (hk : isHTTP d.kind = true)
@@ -1189,7 +1537,8 @@ theorem method_blk (banned : List Kind) (d : BDir) (kids : List BTree) (anc : Li
           | none => rfl
           | some s =>
             simp only [ok_bind]
-            have e1 : ({ c with similar := s } : Cat).hasInter i = c.hasInter i := rfl
+            have e1 : taken ({ c with similar := s } : Cat) i = c.hasInter i :=
+              taken_http (httpIdOf_spec hid).1
             rw [e1]
             by_cases hh : c.hasInter i = true
             · rw [if_pos hh, if_pos hh]; rfl
@@ -1219,7 +1568,7 @@ theorem method_blk (banned : List Kind) (d : BDir) (kids : List BTree) (anc : Li
           | none => rw [hs] at h1; cases h1
           | some s =>
             rw [hs] at h1; cases h1
-            exact ⟨by rw [effG_hasInter]; simp, hn⟩
+            exact ⟨by rw [effG_hasInter]; simp, taken_false hn⟩
         · intro c
           rw [eF]
           unfold seq
@@ -1228,8 +1577,9 @@ theorem method_blk (banned : List Kind) (d : BDir) (kids : List BTree) (anc : Li
           rw [eD c, e1]
           exact REq.refl _
 
-/-- the directives that create nothing: Tags (a check of the declared names), Path, Paste -/
-def quietKind (d : BDir) : Bool := d.kind == .Tags || d.kind == .Path || d.kind == .Paste
+/-- the directives that create no interaction: Tags (a check of the declared names), Path, Paste, Protocol (an
+entry of `protoURLs`) -/
+def quietKind (d : BDir) : Bool := d.kind == .Tags || d.kind == .Path || d.kind == .Paste || d.kind == .Protocol
 
 mutual
   theorem quiet_tree (banned : List Kind) : ∀ (t : BTree) (anc : List Up), allT quietKind t = true →
@@ -1243,7 +1593,7 @@ mutual
       · refine ⟨[errS ⟨d.id, .notAllowed⟩], ?_, ?_⟩
         · intro a ha; simp only [List.mem_singleton] at ha; subst ha; exact Atom.err _
         · intro c; rw [addBranch_eq]; unfold addDirective; rw [if_pos hb]; rfl
-      · rcases hq with (hq | hq) | hq
+      · rcases hq with ((hq | hq) | hq) | hq
         · refine ⟨tagChk d :: A2, ?_, ?_⟩
           · intro a ha
             rcases List.mem_cons.1 ha with rfl | ha
@@ -1268,6 +1618,19 @@ mutual
           have : addDirective banned d (kids.map BTree.dir) anc c = .ok c := by
             unfold addDirective; rw [if_neg hb, hq]
           rw [this, ok_bind]; exact e2 c
+        · obtain ⟨a, ha, ea⟩ := proto_atom d anc
+          refine ⟨a :: A2, ?_, ?_⟩
+          · intro b hb'
+            rcases List.mem_cons.1 hb' with rfl | hb'
+            · exact ha
+            · exact hA2 b hb'
+          · intro c
+            rw [addBranch_eq]
+            have : addDirective banned d (kids.map BTree.dir) anc c = a c := by
+              unfold addDirective; rw [if_neg hb, hq]; exact ea c
+            rw [this]
+            show a c >>= _ = a c >>= runL A2
+            congr 1; funext x; exact e2 x
   theorem quiet_forest (banned : List Kind) : ∀ (ts : List BTree) (anc : List Up), allF quietKind ts = true →
       ∃ As, (∀ a ∈ As, Atom a) ∧ ∀ c, addForest banned anc ts c = runL As c
     | [], anc, _ => ⟨[], fun a ha => (by cases ha), fun c => addForest_nil banned anc c⟩
@@ -1285,18 +1648,24 @@ mutual
         congr 1; funext x; exact e2 x
 end
 
-/-- a child of a URL directive: a method with everything below it, or Tags / Path / Paste -/
-def isKid (t : BTree) : Bool := (isHTTP t.dir.kind && allF localKindT t.kids) || allT quietKind t
+/-- a child of a URL directive: an HTTP method or a JSON-RPC Method with everything below it, or Tags / Path /
+Paste / Protocol -/
+def isKid (t : BTree) : Bool :=
+  (isHTTP t.dir.kind && allF localKindT t.kids) || (t.dir.kind == .Method && allF rpcKind t.kids) || allT quietKind t
 
 theorem kid_blk (banned : List Kind) (t : BTree) (anc : List Up) (h : isKid t = true) :
     ∃ As L I, (∀ a ∈ As, Atom a) ∧ IsBlk (addBranch banned anc t) (runL As) L I := by
   unfold isKid at h
-  rw [Bool.or_eq_true] at h
-  rcases h with h | h
+  rw [Bool.or_eq_true, Bool.or_eq_true] at h
+  rcases h with (h | h) | h
   · cases t with
     | node d kids =>
       simp only [BTree.dir, BTree.kids, Bool.and_eq_true] at h
       exact method_blk banned d kids anc h.1 h.2
+  · cases t with
+    | node d kids =>
+      simp only [BTree.dir, BTree.kids, Bool.and_eq_true, beq_iff_eq] at h
+      exact rpc_method_blk banned d kids anc h.1 h.2
   · obtain ⟨As, hA, e⟩ := quiet_tree banned t anc h
     exact ⟨As, [], [], hA, blk_of_atoms hA (fun c => REq.of_eq (e c))⟩
 
